@@ -162,7 +162,7 @@ def run_case(case):
     rng = random.Random(case["seed"])
     T, keys, w, sizes = make_dist(rng)
     jdd = dict(zip(keys, w))
-    carrier = rng.choice(["manual", "manual", "empirical"])
+    carrier = rng.choice(["manual", "manual", "empirical", "split-degree"]) if T <= 3 else rng.choice(["manual", "manual", "empirical"])
     # the distribution is "a mapping from joint degree to weight": a dict, or any other Mapping a caller may hold
     mform = rng.choice(["dict", "dict", "dict", "OrderedDict", "defaultdict", "MappingProxyType", "ChainMap", "UserDict"])
 
@@ -180,7 +180,20 @@ def run_case(case):
         if mform == "UserDict":
             return collections.UserDict(d)
         return dict(d)
-    if carrier == "manual":
+    if carrier == "split-degree":
+        # the sampler is the base-class one for EVERY loader: here a split-degree loader, built after another split-degree loader with
+        # another number of topologies in the same process
+        Tother = rng.choice([t for t in (1, 2, 3) if t != T])
+        sut("JointDegreeSplitDegree (another model first)", gcmpy.JointDegreeSplitDegree,
+            {N_.FP: gcmpy.poisson(2.0), N_.PROBS: [1.0 / Tother] * Tother, N_.MOTIF_SIZES: list(range(2, Tother + 2)), N_.LOW_HIGH_DEGREE_BOUND: (0, rng.randint(5, 12))})
+        pr = [rng.random() + 0.05 for _ in range(T)]
+        pr = [x / sum(pr) for x in pr]
+        L = sut("JointDegreeSplitDegree", gcmpy.JointDegreeSplitDegree,
+                {N_.FP: gcmpy.poisson(rng.choice([1.5, 2.5])), N_.PROBS: pr, N_.MOTIF_SIZES: list(sizes), N_.LOW_HIGH_DEGREE_BOUND: (0, rng.randint(4, 9))})
+        d0 = sut("read .jdd", lambda: L.jdd)
+        keys, w = list(d0.keys()), list(d0.values())
+        res.count("split_degree_carriers")
+    elif carrier == "manual":
         if mform != "dict":
             res.count("distributions_given_as_another_mapping_type")
             res.seen("mapping_types", mform)
@@ -250,6 +263,11 @@ def run_case(case):
                     L.motif_sizes = list(sizes)
             elif how == "recreate":
                 sut("create_jdd (again)", L.create_jdd)
+                if carrier == "split-degree":
+                    # the table is rebuilt from the loader's own degree function and probabilities, discarding manual edits (what that
+                    # table must be is C07's subject; here it is the table the sampler has to follow from now on)
+                    d1 = sut("read .jdd", lambda: L.jdd)
+                    keys, w = list(d1.keys()), list(d1.values())
                 if carrier == "empirical":
                     # documented behaviour: the table is rebuilt from the current observations, discarding manual edits
                     c = Counter(cur_emp)
